@@ -57,6 +57,8 @@ type c02Req struct {
 	finishAt  time.Duration // handler returned (or panicked)
 	finished  bool
 	panicked  bool
+	reuseBuf  bool // the handler writes every chunk from one scratch buffer
+	scratch   []byte
 	committed bool // handler called WriteHeader/Write before panicking
 }
 
@@ -107,7 +109,17 @@ func c02Run(r *zsim.Run) {
 				w.WriteHeader(st.code)
 			case 3:
 				rq.committed = true
-				w.Write([]byte(st.data))
+				if rq.reuseBuf {
+					// a handler that streams through one buffer (io.Copy, bufio, a pooled buffer): the bytes belong
+					// to the writer only until Write returns
+					rq.scratch = append(rq.scratch[:0], st.data...)
+					w.Write(rq.scratch)
+					for i := range rq.scratch {
+						rq.scratch[i] = '#'
+					}
+				} else {
+					w.Write([]byte(st.data))
+				}
 			case 4:
 				rq.panicked = true
 				switch st.code {
@@ -148,7 +160,7 @@ func c02Run(r *zsim.Run) {
 			for i := 0; i < n && !r.Failed(); i++ {
 				zsim.Sleep(time.Duration(o.Intn(40)) * time.Millisecond)
 				nextID++
-				rq := &c02Req{id: nextID}
+				rq := &c02Req{id: nextID, reuseBuf: o.Intn(2) == 0}
 				// handler script; sleeps are chosen so that the handler never finishes exactly at the deadline
 				ns := 1 + o.Intn(5)
 				var total time.Duration
